@@ -2,7 +2,10 @@
    urllib.parse) was observed to do on a case, against what the model computes
    for the same input.  A model answer RUnm (input outside the modelled part
    of the standard library: bracketed hosts, non-ASCII network locations) is
-   not compared; the plugin counts those cases. *)
+   not compared with the observation; instead every case carries the flag
+   `unm` computed by the plugin's own description of that class, and the model
+   must answer RUnm exactly on the flagged cases (so the model cannot dodge a
+   comparison, and the count of uncompared cases is exact). *)
 From Coq Require Import List NArith ZArith Bool.
 From Lib Require Import CorrLib UriPy.
 From Gen Require Import Uri.
@@ -22,12 +25,12 @@ Inductive case :=
 | KQuote (safe s : str) (o : otext)                        (* quote(s, safe) *)
 | KUnquote (s : str) (o : str)                              (* unquote(s) *)
 | KDecode (bs : list N) (o : str)                           (* bytes(bs).decode('utf-8', 'replace') *)
-| KParse (nt : bool) (uri : str) (f : ofields) (o : oparse) (* urlparse(uri), _parseURI(uri) *)
-| KBuild (name user pw host port db : uv) (o : otext) (p : option oparse)
+| KParse (nt unm : bool) (uri : str) (f : ofields) (o : oparse) (* urlparse(uri), _parseURI(uri) *)
+| KBuild (unm : bool) (name user pw host port db : uv) (o : otext) (p : option oparse)
                                                             (* conn.uri(), then _parseURI of that text *)
-| KSqlite (nt : bool) (filename : uv) (o : otext) (p : option oparse) (opened : option otext)
+| KSqlite (nt unm : bool) (filename : uv) (o : otext) (p : option oparse) (opened : option otext)
                                                             (* conn.uri(), _parseURI, connectionForURI(uri).filename *)
-| KOpen (nt : bool) (uri : str) (opened : otext).          (* connectionForURI(uri).filename *)
+| KOpen (nt unm : bool) (uri : str) (opened : otext).      (* connectionForURI(uri).filename *)
 
 Definition uexn_eqb (a b : uexn) : bool :=
   match a, b with
@@ -63,6 +66,8 @@ Definition fields_agree (m : ures parsed) (f : ofields) : bool :=
   | _, _ => false
   end.
 
+Definition is_unm {A} (m : ures A) : bool := match m with RUnm => true | _ => false end.
+
 (* the URI text the implementation produced is what the next stage consumed *)
 Definition after_text {A} (o : otext) (x : option A) (k : str -> A -> bool) : bool :=
   match o, x with
@@ -77,14 +82,17 @@ Definition agree (c : case) : bool :=
       text_agrees (as_str (u_quote (UStr s) safe)) o
   | KUnquote s o => str_eqb (unquote s) o
   | KDecode bs o => str_eqb (utf8_decode bs) o
-  | KParse nt uri f o =>
-      fields_agree (urlparse uri) f && parse_agrees (parse_uri nt uri) o
-  | KBuild name user pw host port db o p =>
+  | KParse nt unm uri f o =>
+      Bool.eqb (is_unm (parse_uri nt uri)) unm && Bool.eqb (is_unm (urlparse uri)) unm
+      && fields_agree (urlparse uri) f && parse_agrees (parse_uri nt uri) o
+  | KBuild unm name user pw host port db o p =>
       text_agrees (as_str (gen_uri name user pw host port db)) o
-      && after_text o p (fun t op => parse_agrees (parse_uri false t) op)
-  | KSqlite nt fn o p opened =>
+      && negb (is_unm (gen_uri name user pw host port db))
+      && after_text o p (fun t op => Bool.eqb (is_unm (parse_uri false t)) unm && parse_agrees (parse_uri false t) op)
+  | KSqlite nt unm fn o p opened =>
       text_agrees (as_str (gen_sqlite_uri fn)) o
-      && after_text o p (fun t op => parse_agrees (parse_uri nt t) op)
-      && after_text o opened (fun t oo => text_agrees (open_uri nt t) oo)
-  | KOpen nt uri opened => text_agrees (open_uri nt uri) opened
+      && negb (is_unm (gen_sqlite_uri fn))
+      && after_text o p (fun t op => Bool.eqb (is_unm (parse_uri nt t)) unm && parse_agrees (parse_uri nt t) op)
+      && after_text o opened (fun t oo => Bool.eqb (is_unm (open_uri nt t)) unm && text_agrees (open_uri nt t) oo)
+  | KOpen nt unm uri opened => Bool.eqb (is_unm (open_uri nt uri)) unm && text_agrees (open_uri nt uri) opened
   end.
